@@ -33,6 +33,8 @@ def _join_parts(parts):
 
 
 def res_str(obs: dict) -> str:
+    if obs["st"] == "OK" and obs["shape"] == "tree":
+        return "tree#" + obs["tree"]
     if obs["st"] == "OK":
         return f"{obs['shape']}#{_join_parts(obs['lhs'])}#{_join_parts(obs['rhs'])}"
     return {"REJECT": "R"}.get(obs["st"], obs["st"] + ":" + str(obs.get("cls", obs.get("shape", ""))))
@@ -103,6 +105,8 @@ def _enumerated(ctx: Ctx, maxlen: int, alpha: str, cfgname: str, slice_mod: int 
             if c["o"][k] not in ("R", "U") and sum(1 for t in c["t"] if t in "+-*/:^~|%in%") >= 2:
                 ctx.nontrivial.add((tuple(c["t"]), k))
             lr += c["lr"][k]
+            if c["o"][k].startswith("tree#"):
+                ctx.notes["nested_structure_outcomes_replayed"] = ctx.notes.get("nested_structure_outcomes_replayed", 0) + 1
         for m in mism:
             ctx.violation({"formula": m["formula"], "cfg": m["cfg"], "via": m["via"]}, m, kind="replay")
     for c in cases[:: max(1, len(cases) // 3)][:3]:
@@ -122,12 +126,15 @@ def run(ctx: Ctx) -> None:
         _enumerated(ctx, 4, "core", "quick")
         _enumerated(ctx, 3, "full", "quick")
         _enumerated(ctx, 5, "colon", "default")
+        _enumerated(ctx, 7, "stage", "stage")
     else:
         _enumerated(ctx, 5, "core", "quick")
         _enumerated(ctx, 4, "core", "all")
         _enumerated(ctx, 4, "full", "quick")
         _enumerated(ctx, 6, "signs", "quick")
         _enumerated(ctx, 6, "colon", "quick")
+        _enumerated(ctx, 8, "stage", "stage")
+        _enumerated(ctx, 7, "stage2", "stage")
     ctx.exhaustive = True
     from . import c01_trace
 
